@@ -107,14 +107,15 @@ static inline bool op_is_batchfn(int c) {
   return c == OP_BSUM || c == OP_BMEAN || c == OP_BNORM || c == OP_BPICK || c == OP_BSLICE ||
          c == OP_BSPLIT || c == OP_BCONCAT;
 }
-// pure data movement / creation: results must be bit-for-bit on every backend
+// pure data movement / creation / selection: results must be bit-for-bit on every backend
+// (negation and abs are NOT in this class: Eigen's packet negate yields +0 for -(+0))
 static inline bool op_is_movement(int c) {
   switch (c) {
     case OP_PAR: case OP_IN: case OP_CONST: case OP_ZEROS: case OP_ONES: case OP_IDENT:
     case OP_POS: case OP_FLATTEN: case OP_TRANSPOSE: case OP_STOPGRAD: case OP_FLIP: case OP_BCAST:
     case OP_SLICE: case OP_PICK: case OP_SPLIT: case OP_PERMUTE: case OP_RESHAPE: case OP_COPY:
     case OP_BPICK: case OP_BSLICE: case OP_BSPLIT: case OP_CONCAT: case OP_BCONCAT:
-    case OP_MAX: case OP_MIN: case OP_MAXPOOL: case OP_NEG: case OP_ABS:
+    case OP_MAX: case OP_MIN: case OP_MAXPOOL:   // selection of one input element
       return true;
     default: return false;
   }
